@@ -18,8 +18,10 @@ PATHS = ["Vehicle.Speed", "Vehicle.SpeedLimit", "Vehicle.Speed2", "Vehicle.Cabin
          "Other.Branch.Leaf", "Vehicle.VIN"]
 SCOPE_PATHS = ["Vehicle", "Vehicle.Speed", "Vehicle.Cabin", "Vehicle.Cabin.Door.*.Left", "Vehicle.*", "*.Branch.Leaf",
                "Vehicle.ADAS", "Vehicle.ADAS.*.IsEnabled", "Vehicle.Cabin.Door.Row2", "Other", "Vehicle.Body.Horn",
-               "Vehicle.Speed2", "Vehicle.Spee"]
+               "Vehicle.Speed2", "Vehicle.Spee", "*", "*", "*.*"]
 ALL_SCOPE = "read actuate provide create"
+# Unicode White_Space (regex \s, char::is_whitespace)
+UNI_WS = set("\t\n\x0b\x0c\r \x85\xa0\u1680\u2028\u2029\u202f\u205f\u3000") | {chr(c) for c in range(0x2000, 0x200b)}
 
 
 def opt(v):
@@ -170,7 +172,9 @@ class Gen:
             else:
                 bad = r.random() < 0.35
                 name = r.choice(["", ".", "A..B", "Vehicle.", ".Vehicle", "Veh icle.X", "Vehicle:X", "Vehicle.*",
-                                 "Vehicle.New*"]) if bad else r.choice(
+                                 "Vehicle.New*", "Vehicle.A\u000bB", "Vehicle.A\u00a0B", "Vehicle.\u2028", "Vehicle.X\u3000",
+                                 "Vehicle.A\u0085", "Vehicle.\u2003B", "\u1680Vehicle.A", "Vehicle.A\u202fB",
+                                 "Vehicle.A\u205fB", "Vehicle.A\u000cB"]) if bad else r.choice(
                     [p for p in PATHS + ["Vehicle.Extra%d" % len(L), "X"] if p not in [s[1] for s in self.sigs]])
                 t = r.randrange(24)
                 meta = self.meta_for(t)
@@ -723,7 +727,7 @@ class Principals:
         return sc is not None
 
     def can(self, p, action, path, ticked):
-        """action in read/actuate/provide/create; returns True/False/None (lone '*' involved)"""
+        """action in read/actuate/provide/create; returns True/False"""
         if p < 0 or p >= len(self.scopes):
             return False
         sc, exp = self.scopes[p]
@@ -731,11 +735,8 @@ class Principals:
             return False
         acts = S.ACTIONS if action == "read" else [action]
         vals = [S.oracle_covers(pat, path) for (a, pat) in sc if a in acts]
-        if any(v is True for v in vals):
-            return True
-        if any(v is None for v in vals):
-            return None
-        return False
+        # a lone '*' (oracle_covers answers None) deliberately matches nothing (glob.rs; the text of C05 says so)
+        return any(v is True for v in vals)
 
 
 
@@ -1423,7 +1424,9 @@ def monitor(lines, out, props):
                       c = P.can(d["p"], "create", d["path"], ticked)
                       if c is False:
                           fails.append("C04-create: p%d registered %s without create permission" % (d["p"], d["path"]))
-                      seg_ok = all(s and not any(ch in s for ch in " \t\n:*") for s in d["path"].split("."))
+                      # a valid dotted path: non-empty segments without whitespace (any Unicode White_Space
+                      # character), ':' or '*'
+                      seg_ok = all(s and not any(ch in UNI_WS or ch in ":*" for ch in s) for s in d["path"].split("."))
                       if not seg_ok:
                           fails.append("C16-name: invalid name %r was registered" % d["path"])
                       if d.get("allowed") is not None and d["allowed"][0] != V.ARR[V.NAT[d["dtype"]][0]]:
